@@ -21,6 +21,18 @@ from common import f2h, h2f, vec2p
 
 EPS = 2.0 ** -52
 
+# Open finding (known-findings.json): without force_pos_def, apply_masked uses `γ < 0` as its "scaling not
+# yet set" marker, so a pair valid on J whose ratio ⟨s,y⟩_J/⟨y,y⟩_J is negative is used in the recursion but
+# its (documented) scaling is replaced by that of an older pair — or the call fails after having modified q.
+KEY_NEGSCALE = 'C09-apply_masked-negative-curvature-scaling-from-older-pair'
+
+# What the real code did at the excluded points of the theorems (a stored pair with ⟨y,s⟩ = 0: forced update,
+# scale_y(0), or min_div_fac < 0): reported in the evidence, see `extra_stage`.
+STATS = {'apply_on_singular_history': 0, 'apply_on_singular_history_nonfinite': 0,
+         'apply_masked_on_singular_history': 0, 'singular_pair_stored_forced': 0,
+         'singular_pair_stored_unforced_mdf_negative': 0, 'scale_y_zero': 0,
+         'apply_after_singular_pair_evicted': 0, 'masked_negative_ratio': 0}
+
 
 # ---------------------------------------------------------------- generation
 
@@ -186,6 +198,49 @@ def random_sequence(rng, L, masked):
     return ops
 
 
+def excluded_point_ops():
+    """Always run: the points the theorems exclude (audit F7) and the open masked-scaling finding.
+    Exact-regime data, so the monitors can demand equality wherever the property says something."""
+    def new(m, n, mdf=EPS, mas=EPS * EPS, ca=1.0, ce=0.0, fpd=1, curv=0):
+        return f'new {m} {n} {f2h(mdf)} {f2h(mas)} {f2h(ca)} {f2h(ce)} {fpd} {curv}'
+
+    def usy(forced, s, y, pTp=0.0):
+        return f'usy {int(forced)} {f2h(pTp)} {vec2p(s)} {vec2p(y)}'
+
+    def app(g, q):
+        return f'app {f2h(g)} {vec2p(q)}'
+
+    def appm(g, q, J, kind=1):
+        return f'appm {kind} {f2h(g)} {vec2p(q)} {len(J)} ' + ' '.join(map(str, J))
+    q = [1.0, 2.0]
+    ops = []
+    # A. forced update with ⟨y,s⟩ = 0: stored (ρ = inf), apply → NaN, apply_masked skips the pair;
+    #    two good updates evict it (memory 2) and apply is the dense operator again
+    ops += [new(2, 2), usy(1, [1.0, 0.0], [0.0, 1.0]), 'dump', app(1.0, q), app(-1.0, q),
+            appm(1.0, q, [0, 1]), appm(1.0, q, [0], 0), appm(-1.0, q, [0]),
+            usy(0, [1.0, 1.0], [1.0, 2.0]), app(-1.0, q), appm(-1.0, q, [0, 1]), appm(-1.0, q, [1]),
+            usy(0, [1.0, 0.0], [2.0, -1.0]), 'dump', app(-1.0, [1.0, 0.0]), app(0.5, q)]
+    # B. forced update with s = 0
+    ops += [new(2, 2), usy(1, [0.0, 0.0], [1.0, 1.0]), 'dump', app(1.0, q), appm(1.0, q, [0, 1]), 'reset',
+            usy(0, [1.0, 1.0], [1.0, 2.0]), app(-1.0, q)]
+    # C. forced update with ⟨y,s⟩ < 0, force_pos_def, CBFGS off: the dense matrix exists (indefinite)
+    ops += [new(2, 2), usy(1, [1.0, 0.0], [-2.0, 1.0]), 'dump', app(1.0, q), app(-1.0, q), appm(1.0, q, [0, 1])]
+    # D. the same with CBFGS on (apply_masked throws); and ⟨y,s⟩ = 0 with CBFGS on
+    ops += [new(2, 2, ca=2.0, ce=0.25), usy(1, [1.0, 0.0], [-2.0, 1.0], 4.0), 'dump', app(1.0, q),
+            appm(1.0, q, [0, 1]), usy(1, [1.0, 0.0], [0.0, 1.0], 4.0), app(1.0, q)]
+    # E. scale_y(0): y = 0, ρ = inf
+    ops += [new(2, 2), usy(0, [1.0, 1.0], [1.0, 2.0]), f'scaley {f2h(0.0)}', 'dump', app(1.0, q), 'reset',
+            usy(0, [1.0, 1.0], [1.0, 2.0]), app(1.0, q)]
+    # F. min_div_fac < 0: the acceptance test itself lets ⟨y,s⟩ = 0 through
+    ops += [new(2, 2, mdf=-1.0), usy(0, [1.0, 0.0], [0.0, 1.0]), 'dump', app(1.0, q)]
+    # G. open finding: force_pos_def = false, curvature step size, newest pair has negative curvature
+    ops += [new(3, 2, fpd=0, curv=1), usy(0, [1.0, 1.0], [1.0, 2.0]), usy(0, [1.0, 0.0], [-2.0, 1.0]), 'dump',
+            app(-1.0, q), appm(-1.0, q, [0, 1]), appm(-1.0, q, [0], 0)]
+    # H. … and with only that pair: apply succeeds (negative scaling), apply_masked fails *and* has modified q
+    ops += [new(3, 2, fpd=0, curv=1), usy(0, [1.0, 0.0], [-2.0, 1.0]), app(-1.0, q), appm(-1.0, q, [0, 1])]
+    return ops
+
+
 def gen_ops(rng, n_lines):
     thorough = n_lines > 100000
     ops = small_sequences(rng, 5 if thorough else 3)
@@ -197,6 +252,7 @@ def gen_ops(rng, n_lines):
             f'appm 0 {f2h(-1.0)} {vec2p([1.0, 0.0])} 1 0',
             f'app {f2h(-1.0)} {vec2p([1.0, 0.0])}',
             'dump']
+    ops += excluded_point_ops()
     while len(ops) < n_lines:
         L = rng.choice([3, 6, 10, 20, 40, 60]) if rng.random() < 0.93 else 200
         ops += random_sequence(rng, L, masked=rng.random() < 0.4)
@@ -428,6 +484,12 @@ def _monitor(op, out, st):
             return (f'pair stored={stored} but forced={forced}, documented acceptance test='
                     f'{dec} (yᵀs={float(xdot(y, s))!r}, sᵀs={float(xdot(s, s))!r})')
         if stored:
+            if xdot(y, s) == 0:
+                STATS['singular_pair_stored_forced' if forced else 'singular_pair_stored_unforced_mdf_negative'] += 1
+                if not forced and not (P['mdf'] < 0 or amb):
+                    return ('a pair with ⟨y,s⟩ = 0 passed the acceptance test although min_div_fac ≥ 0 '
+                            '(the dense BFGS matrix of the history no longer exists)')
+                st['had_singular'] = True
             push(st, s, y)
         if o.tok() != '|':
             return 'malformed output'
@@ -440,6 +502,9 @@ def _monitor(op, out, st):
         return check_tail(st, o)
     if kind == 'scaley':
         f = t.flt()
+        if f == 0 and st['hist']:
+            STATS['scale_y_zero'] += 1
+            st['had_singular'] = True
         st['hist'] = [(s, [v * f for v in y]) for s, y in st['hist']]
         st['ver'] += 1
         o.tok()
@@ -476,7 +541,15 @@ def _monitor(op, out, st):
                 return 'apply failed but modified q'
             return None
         if any(xdot(y, s) == 0 for s, y in hist):
-            return None                      # forced singular pair: the dense operator is undefined
+            # Excluded point of the theorems (¬CurvOK): a stored pair with ⟨y,s⟩ = 0 — only a forced update,
+            # scale_y(0) or min_div_fac < 0 can produce one.  The dense BFGS matrix of this history does not
+            # exist, so the property demands nothing of the result; what the real code returns is counted and
+            # reported (ρ = 1/0 = inf ⇒ NaN).  As soon as the pair is evicted / reset, the check below is back.
+            STATS['apply_on_singular_history'] += 1
+            STATS['apply_on_singular_history_nonfinite'] += not all(math.isfinite(v) for v in r)
+            return None
+        if st.get('had_singular'):
+            STATS['apply_after_singular_pair_evicted'] += 1
         key = st['ver']
         if key not in st['cache']:
             st['cache'].clear()
@@ -542,20 +615,39 @@ def _monitor(op, out, st):
             return f'apply_masked modified a component outside J={J}'
         decs = [accept_exact(P, s, y, 0.0, Jx) for s, y in hist]
         st['masked'] = True      # diagnostic only: apply_masked must not change what apply computes
-        if any(a for _, a in decs) or not P['fpd'] or P['mdf'] < 0:
+        if any(xdot(y, s) == 0 for s, y in hist):
+            STATS['apply_masked_on_singular_history'] += 1      # checked like any other history (pairs re-tested on J)
+        if any(a for _, a in decs) or P['mdf'] < 0:
             return None
         sub = [([s[j] for j in Jx], [y[j] for j in Jx]) for (s, y), (d, _) in zip(hist, decs) if d]
         qJ = [q[j] for j in Jx]
+        neg = False
         if P['curv'] or g < 0:
             if not sub:
                 if ok or [f2h(v) for v in r] != [f2h(v) for v in q]:
                     return 'apply_masked with no pair valid on J and no external γ succeeded or modified q'
                 return None
+            # the documented initial scaling on the subset: ⟨s,y⟩_J/⟨y,y⟩_J of the newest pair valid on J
+            # (what apply() uses on the full index set, negative or not)
             g0 = xdot(sub[-1][1], sub[-1][0]) / xdot(sub[-1][1], sub[-1][1])
+            neg = g0 < 0
+            if neg and P['fpd']:
+                return 'monitor self-check: a pair valid on J with force_pos_def has negative curvature'
         else:
             g0 = Fr(g)
+
+        def tag(msg):
+            if neg:
+                STATS['masked_negative_ratio'] += 1
+                return (msg + f' [force_pos_def = false and the newest pair valid on J has the negative scaling '
+                        f'⟨s,y⟩_J/⟨y,y⟩_J = {float(g0)!r}: apply() uses it, apply_masked() replaces it by an older '
+                        f"pair's or fails]", KEY_NEGSCALE)
+            return msg
         if not ok:
-            return f'apply_masked failed although {len(sub)} pairs are valid on J={J} / γ={g!r} ≥ 0'
+            m_ = f'apply_masked failed although {len(sub)} pairs are valid on J={J} / γ={g!r} ≥ 0'
+            if [f2h(v) for v in r] != [f2h(v) for v in q]:
+                m_ += f' — and it modified q: {r!r}'
+            return tag(m_)
         H0, H1, msg = dense_pair(sub, len(Jx))
         if msg:
             return 'monitor self-check (masked): ' + msg
@@ -563,8 +655,8 @@ def _monitor(op, out, st):
         for a, j in enumerate(Jx):
             e = sum((H0[a][b] + g0 * (H1[a][b] - H0[a][b])) * Fr(qJ[b]) for b in range(len(Jx)))
             if not math.isfinite(r[j]) or abs(Fr(r[j]) - e) > TOL * max(sc, Fr(1, 2 ** 200)):
-                return (f'apply_masked(q, γ={g!r}, J={J}) ≠ dense BFGS of the {len(sub)} pairs valid on J '
-                        f'restricted to J: component {j}: got {r[j]!r}, expected {float(e)!r}')
+                return tag(f'apply_masked(q, γ={g!r}, J={J}) ≠ dense BFGS of the {len(sub)} pairs valid on J '
+                           f'restricted to J (γ₀={float(g0)!r}): component {j}: got {r[j]!r}, expected {float(e)!r}')
         return None
     return None
 
@@ -596,6 +688,21 @@ def nontrivial(op, out):
     return None
 
 
+def extra_stage(rep, broken, exe, tier):
+    rep.cov['c09_excluded_points'] = dict(STATS)
+    rep.note('excluded points of apply_eq_dense_bfgs / run_goodC on the real code (a stored pair with ⟨y,s⟩ = 0; the '
+             'dense BFGS matrix does not exist, the property demands nothing): '
+             f'{STATS["singular_pair_stored_forced"]} forced updates and {STATS["scale_y_zero"]} scale_y(0) calls produced one, '
+             f'{STATS["singular_pair_stored_unforced_mdf_negative"]} un-forced updates did (min_div_fac < 0 only); '
+             f'{STATS["apply_on_singular_history"]} apply() calls on such a history, '
+             f'{STATS["apply_on_singular_history_nonfinite"]} of them returned a non-finite vector (ρ = 1/0 = inf); '
+             f'{STATS["apply_masked_on_singular_history"]} apply_masked() calls on such a history were checked like any other '
+             '(the pair is re-tested on J and skipped); '
+             f'{STATS["apply_after_singular_pair_evicted"]} apply() calls after the pair had been evicted / reset were checked '
+             'against the dense matrix again')
+    rep.note(f'open finding {KEY_NEGSCALE}: {STATS["masked_negative_ratio"]} apply_masked() calls hit it')
+
+
 if __name__ == '__main__':
     sys.exit(C.standard_check(
         'C09', sys.argv,
@@ -606,7 +713,7 @@ if __name__ == '__main__':
         harness_name='c09',
         harness_sources=[os.path.join(C.VERIF, 'harness', 'c09.cpp')]
         + C.repo_lib_sources(['accelerators/lbfgs.cpp']),
-        gen_ops=gen_ops, monitor=monitor, nontrivial=nontrivial,
+        gen_ops=gen_ops, monitor=monitor, nontrivial=nontrivial, extra_stage=extra_stage,
         n_quick=30000, n_thorough=400000,
         trusted_base=[
             'Lean 4.33 kernel + Mathlib (axioms: propext, Classical.choice, Quot.sound)',
@@ -623,9 +730,14 @@ if __name__ == '__main__':
         ],
         assumptions=['Eigen dot / squaredNorm are left folds under -O1 -ffp-contract=off '
                      '-DEIGEN_DONT_VECTORIZE; vectors passed to the accelerator have the size it was '
-                     'resized to; J lists distinct in-range indices'],
+                     'resized to; J lists distinct in-range indices',
+                     'min_div_fac ≥ 0; a forced update has ⟨y,s⟩ ≠ 0 and scale_y is not called with 0 (OpOK) — at '
+                     'these excluded points the dense BFGS matrix does not exist, the real code stores ρ = inf and '
+                     'apply() returns NaN (run and reported on every run: c09_excluded_points)'],
         rule='all words of length ≤ 3 (thorough: 5) over {valid update, forced bad update, apply, reset, '
-             'scale_y} for memory 1..4 (n=2, exact regime), then seeded random sequences of 3..200 ops '
+             'scale_y} for memory 1..4 (n=2, exact regime), the fixed excluded-point corpus (forced ⟨y,s⟩ = 0 / s = 0 / '
+             '⟨y,s⟩ < 0 with and without CBFGS, scale_y(0), min_div_fac < 0, eviction of the singular pair, the '
+             'force_pos_def = false masked-scaling finding), then seeded random sequences of 3..200 ops '
              'over all op kinds (memory 1..7, n 0..5, both step-size policies, CBFGS on/off, '
              'force_pos_def on/off, 40 % with apply_masked, 60 % exact-regime dyadic inputs); '
              'distinct = distinct successful apply / apply_masked op lines',
